@@ -201,10 +201,17 @@ def batchB (m : Meta) (lut : LUT) (T : List Tri) (δ : Rat → Rat → Rat) (s :
   let em := evs3.map fun e => (bary T lutN (e.1, e.2.1), e.2.2)
   em.map fun r => r.1.map (scaleE m.L0 s.L m.Q0 s.Q m.eta0 r.2 true)
 
-/-! ## Call histories against the LUT registry -/
+/-! ## Histories over a mutable LUT environment
 
-/-- how a call names its LUT: a registered identifier / path, or an `(array, meta)` tuple -/
+The environment a call sees: LUT files on disk (`files`, path ↦ content; rewriting a file in
+place shadows the old content), the registry `EXTERNAL_LUTS` (`reg`, identifier ↦ path) and the
+built-in tables (`internal`, identifier ↦ content, immutable).  `get_lut_path` resolves a path
+that exists first, then built-in identifiers, then registered ones; `load_lut` parses the file
+*at call time* and hands the computation a fresh copy. -/
+
+/-- how a call names its LUT: a path, an identifier, or an `(array, meta)` tuple -/
 inductive LutRef where
+  | path (p : Nat)
   | named (id : Nat)
   | tuple (lut : LUT) (m : Meta) (T : List Tri)
 
@@ -221,40 +228,120 @@ structure Call where
   global : Option Rat
   evs : List (Rat × Rat × Rat)
 
-abbrev Registry := List (Nat × Entry)
+structure Env where
+  files : List (Nat × Entry)
+  reg : List (Nat × Nat)
+  internal : List (Nat × Entry)
 
-/-- `load_lut`: a fresh copy of the table (file read or `np.array(copy=True)`) -/
-def loadLut (reg : Registry) : LutRef → Option Entry
-  | .named id => (reg.find? (·.1 = id)).map (·.2)
+inductive Op where
+  | write (p : Nat) (e : Entry)        -- (re)write the LUT file at path `p`
+  | register (id p : Nat)              -- `register_lut(path, identifier)`
+  | deregister (id : Nat)              -- `EXTERNAL_LUTS.pop(identifier)`
+  | call (c : Call)
+
+inductive Out where
+  | ok
+  | errValue                           -- `ValueError`
+  | res (r : List (Option Rat))
+
+/-- `get_lut_path` + `load_mtext` / tuple copy: the table that is current *now* -/
+def loadLut (env : Env) : LutRef → Option Entry
+  | .path p => env.files.lookup p
+  | .named id =>
+    match env.internal.lookup id with
+    | some e => some e
+    | none => (env.reg.lookup id).bind (fun p => env.files.lookup p)
   | .tuple l m T => some ⟨l, m, T⟩
 
-/-- result of one call on a given registry; `none` = `ValueError` (unknown identifier) -/
-def evalCall (reg : Registry) (c : Call) : Option (List (Option Rat)) :=
-  match loadLut reg c.ref with
-  | none => none
-  | some e =>
-    match c.global with
-    | some η => some (batchA e.m e.lut e.T c.δ c.s η (c.evs.map fun v => (v.1, v.2.1)))
-    | none => some (batchB e.m e.lut e.T c.δ c.s c.evs)
+def evalEntry (e : Entry) (c : Call) : List (Option Rat) :=
+  match c.global with
+  | some η => batchA e.m e.lut e.T c.δ c.s η (c.evs.map fun v => (v.1, v.2.1))
+  | none => batchB e.m e.lut e.T c.δ c.s c.evs
 
-/-- one call: the in-place scaling/normalisation acts on the loaded copy, the registry is
-handed on unchanged -/
-def stepCall (reg : Registry) (c : Call) : Registry × Option (List (Option Rat)) :=
-  match loadLut reg c.ref with
-  | none => (reg, none)
-  | some e =>
-    -- `lut` is local to the call: whatever is done to it is dropped here
-    let out := match c.global with
-      | some η => batchA e.m e.lut e.T c.δ c.s η (c.evs.map fun v => (v.1, v.2.1))
-      | none => batchB e.m e.lut e.T c.δ c.s c.evs
-    (reg, some out)
+/-- **spec**: result of a call in a given environment (`errValue` = unknown path/identifier) -/
+def evalCall (env : Env) (c : Call) : Out :=
+  match loadLut env c.ref with
+  | none => .errValue
+  | some e => .res (evalEntry e c)
 
-def runCalls (reg : Registry) : List Call → Registry × List (Option (List (Option Rat)))
-  | [] => (reg, [])
-  | c :: cs =>
-    let (reg1, o) := stepCall reg c
-    let (reg2, os) := runCalls reg1 cs
-    (reg2, o :: os)
+/-- **spec**: effect of an operation on the environment (calls have none) -/
+def applyOp (env : Env) : Op → Env
+  | .write p e => { env with files := (p, e) :: env.files }
+  | .register id p =>
+    if (env.reg.lookup id).isSome || (env.internal.lookup id).isSome then env
+    else { env with reg := (id, p) :: env.reg }
+  | .deregister id => { env with reg := env.reg.filter (·.1 != id) }
+  | .call _ => env
+
+/-- **spec**: answer of an operation -/
+def answer (env : Env) : Op → Out
+  | .write _ _ => .ok
+  | .register id _ =>
+    if (env.reg.lookup id).isSome || (env.internal.lookup id).isSome then .errValue else .ok
+  | .deregister _ => .ok
+  | .call c => evalCall env c
+
+def specOps (env : Env) : List Op → List Out
+  | [] => []
+  | op :: ops => answer env op :: specOps (applyOp env op) ops
+
+/-- **impl**: one operation as the code performs it.  A call loads the table, scales and
+normalises *its copy* in place and drops it; nothing is remembered between calls. -/
+def stepOp (env : Env) (op : Op) : Env × Out :=
+  match op with
+  | .write p e => ({ env with files := (p, e) :: env.files }, .ok)
+  | .register id p =>
+    if (env.reg.lookup id).isSome then (env, .errValue)
+    else if (env.internal.lookup id).isSome then (env, .errValue)
+    else ({ env with reg := (id, p) :: env.reg }, .ok)
+  | .deregister id => ({ env with reg := env.reg.filter (·.1 != id) }, .ok)
+  | .call c =>
+    match loadLut env c.ref with
+    | none => (env, .errValue)
+    | some e =>
+      -- `lut` is local to the call: whatever is done to it is dropped here
+      let out := match c.global with
+        | some η => batchA e.m e.lut e.T c.δ c.s η (c.evs.map fun v => (v.1, v.2.1))
+        | none => batchB e.m e.lut e.T c.δ c.s c.evs
+      (env, .res out)
+
+def runOps (env : Env) : List Op → Env × List Out
+  | [] => (env, [])
+  | op :: ops =>
+    let (env1, o) := stepOp env op
+    let (env2, os) := runOps env1 ops
+    (env2, o :: os)
+
+/-- a loader that memoises parsed files by the way the LUT was named and never invalidates
+(the behaviour the property excludes): `cache` maps a path / identifier key to the table
+parsed at first use -/
+def stepOpCached (st : Env × List (Nat × Entry)) (op : Op) : (Env × List (Nat × Entry)) × Out :=
+  let (env, cache) := st
+  match op with
+  | .call c =>
+    let key : Option Nat := match c.ref with
+      | .path p => some (2 * p)
+      | .named id => some (2 * id + 1)
+      | .tuple _ _ _ => none
+    match key.bind (fun k => cache.lookup k) with
+    | some e => ((env, cache), .res (evalEntry e c))
+    | none =>
+      match loadLut env c.ref with
+      | none => ((env, cache), .errValue)
+      | some e =>
+        let cache' := match key with
+          | some k => (k, e) :: cache
+          | none => cache
+        ((env, cache'), .res (evalEntry e c))
+  | op => let (env', o) := stepOp env op; ((env', cache), o)
+
+def runOpsCached (st : Env × List (Nat × Entry)) : List Op → List Out
+  | [] => []
+  | op :: ops => let (st', o) := stepOpCached st op; o :: runOpsCached st' ops
+
+def Out.toList : Out → Option (List (Option Rat))
+  | .res r => some r
+  | _ => none
 
 /-! ## A small table used by the non-vacuity examples -/
 
